@@ -202,6 +202,16 @@ fn mutations(v: &Value, ids: &[String], rng: &mut Rng, cap: usize) -> Vec<(Strin
                         }
                         push(format!("reverse {}", name), m);
                     }
+                    if a.len() <= 8 {
+                        let mut m = v.clone();
+                        if let Some(Value::Array(x)) = get_mut(&mut m, p) {
+                            let orig = x.clone();
+                            for _ in 0..7 {
+                                x.extend(orig.iter().cloned());
+                            }
+                        }
+                        push(format!("repeat-x8 {}", name), m);
+                    }
                 }
                 let mut m = v.clone();
                 *get_mut(&mut m, p).unwrap() = json!({});
@@ -492,6 +502,30 @@ fn blind<S: ShortGroupSignatureScheme>(em: &mut Emitter, rng: &mut Rng, suite: &
             Out::Panic(msg) => {
                 let (sig, at) = site_sig("decode-blind-request");
                 em.violation(&sig, format!("{}: decoding a blind request with '{}' panicked at {}: {}", suite, d, at, msg), json!({"suite": suite, "mutation": d}));
+            }
+        }
+    }
+    // (1b) the holder's untrusted input when asking for a blind credential: the issuer's public data
+    let vpub = serde_json::to_value(&public).unwrap();
+    for (mi, (d, m)) in mutations(&vpub, &ids, rng, cap).into_iter().enumerate() {
+        if !em.mine(mi + 7) {
+            continue;
+        }
+        em.oracle_case(&format!("{} issuer-public {}", suite, d));
+        let text = serde_json::to_string(&m).unwrap();
+        match call(|| serde_json::from_str::<IssuerPublic<S>>(&text)) {
+            Out::Ok(pb) => {
+                let res = call(|| BlindCredentialRequest::<S>::new(&pb, &hidden));
+                em.count(&format!("blind-request-new:{}", res.class()));
+                if let Out::Panic(msg) = res {
+                    let (sig, at) = site_sig("blind-request-new");
+                    em.violation(&sig, format!("{}: BlindCredentialRequest::new panicked at {} on issuer public data with '{}': {}", suite, at, d, msg), json!({"suite": suite, "mutation": d, "issuer_public": m}));
+                }
+            }
+            Out::Err => em.count("issuer-public:undecodable"),
+            Out::Panic(msg) => {
+                let (sig, at) = site_sig("decode-issuer-public");
+                em.violation(&sig, format!("{}: decoding issuer public data with '{}' panicked at {}: {}", suite, d, at, msg), json!({"suite": suite, "mutation": d}));
             }
         }
     }
